@@ -233,7 +233,7 @@ fn lerp(a: (f64, f64), b: (f64, f64), t: f64) -> (f64, f64) {
 }
 
 /// Sample a closed UFO contour (points typed line / curve / qcurve / off) as a polyline.
-fn sample_source(pts: &[(f64, f64, String)]) -> Vec<(f64, f64)> {
+pub fn sample_source(pts: &[(f64, f64, String)]) -> Vec<(f64, f64)> {
     let n = pts.len();
     let Some(start) = pts.iter().position(|p| p.2 != "off") else { return vec![] };
     let mut out = vec![];
@@ -277,7 +277,7 @@ fn sample_source(pts: &[(f64, f64, String)]) -> Vec<(f64, f64)> {
 }
 
 /// Sample a TrueType simple glyph (implied on-curve points between consecutive off-curve points).
-fn sample_truetype(gp: &vf::GlyphPoints) -> Vec<(f64, f64)> {
+pub fn sample_truetype(gp: &vf::GlyphPoints) -> Vec<(f64, f64)> {
     let mut out = vec![];
     let mut s = 0;
     for &e in &gp.contour_ends {
@@ -298,4 +298,34 @@ fn sample_truetype(gp: &vf::GlyphPoints) -> Vec<(f64, f64)> {
         s = e + 1;
     }
     out
+}
+
+
+/// Two-way Hausdorff distance (per-axis metric) between two sets of closed polylines given as vertex lists per contour.
+pub fn polylines_dist(a: &[Vec<(f64, f64)>], b: &[Vec<(f64, f64)>]) -> f64 {
+    fn seg(p: (f64, f64), u: (f64, f64), v: (f64, f64)) -> f64 {
+        let (dx, dy) = (v.0 - u.0, v.1 - u.1);
+        let l2 = dx * dx + dy * dy;
+        let t = if l2 == 0.0 { 0.0 } else { (((p.0 - u.0) * dx + (p.1 - u.1) * dy) / l2).clamp(0.0, 1.0) };
+        (p.0 - (u.0 + t * dx)).abs().max((p.1 - (u.1 + t * dy)).abs())
+    }
+    let one = |x: &[Vec<(f64, f64)>], y: &[Vec<(f64, f64)>]| -> f64 {
+        let mut worst: f64 = 0.0;
+        for c in x {
+            for p in c {
+                let mut best = f64::INFINITY;
+                for d in y {
+                    for i in 0..d.len() {
+                        best = best.min(seg(*p, d[i], d[(i + 1) % d.len()]));
+                    }
+                }
+                worst = worst.max(best);
+            }
+        }
+        worst
+    };
+    if a.is_empty() != b.is_empty() {
+        return f64::INFINITY;
+    }
+    one(a, b).max(one(b, a))
 }
